@@ -79,11 +79,16 @@ def nullable_goto_cycle(table, nullable):
 
 def sentences(cfg, lex, case):
     """(text, chart) for every generated input that is a sentence"""
-    if case["lex"] == "L0":
+    if case.get("only_len"):
+        # one long input: the first terminal repeated (big forests)
+        t0 = cfg.terms[0][2]
+        inputs = [" ".join([t0] * n) for n in ([case["only_len"]] if isinstance(case["only_len"], int)
+                                                 else case["only_len"])]
+    elif case["lex"] == "L0":
         inputs = (G.render(w, case["fill"], k)
                   for k, w in enumerate(G.l0_inputs(cfg, case["max_len"], junk_upto=0)))
     else:
-        inputs = G.char_inputs("ab", case["max_len"])
+        inputs = G.char_inputs(case.get("alphabet", "ab"), case["max_len"])
     for text in inputs:
         chart = Chart(cfg, lex, text)
         if chart.accepts():
@@ -187,6 +192,20 @@ def strat_l0_big(tier):
     return _case(gen.cfgs(max_nts=4, max_alts=3, max_rhs=4, max_terms=2), "L0", 5)
 
 
+def strat_chain(tier):
+    return _case(gen.nullable_chain_cfgs(), "L0", 4)
+
+
+def strat_l1x(tier):
+    @st.composite
+    def c(draw):
+        g = draw(gen.cfgs(max_nts=3, max_alts=3, max_rhs=3, min_terms=3, max_terms=5,
+                          terms_pool=gen.L1X_TERMS).filter(gen.acyclic))
+        return {"g": g, "table": draw(st.sampled_from(["LALR", "SLR"])), "lex": "L1", "alphabet": "abc",
+                "fill": [""], "max_len": 4}
+    return c()
+
+
 def strat_l1(tier):
     return _case(gen.cfgs(max_nts=3, max_alts=3, max_rhs=3, min_terms=2, max_terms=4,
                           terms_pool=gen.L1_TERMS), "L1", 5)
@@ -230,6 +249,8 @@ SUBCHECKS = [
     SubCheck("tiny-exhaustive", run_case, enumerate=enum_tiny),
     SubCheck("random-L0", run_case, strategy=strat_l0, examples={"quick": 6400, "thorough": 60000}),
     SubCheck("random-L0-larger", run_case, strategy=strat_l0_big, examples={"quick": 1600, "thorough": 16000}),
+    SubCheck("nullable-chain-family", run_case, strategy=strat_chain, examples={"quick": 640, "thorough": 6400}),
+    SubCheck("random-L1-crossing-overlap", run_case, strategy=strat_l1x, examples={"quick": 2400, "thorough": 24000}),
     SubCheck("random-L1-overlapping", run_case, strategy=strat_l1, examples={"quick": 1600, "thorough": 16000}),
 ]
 
